@@ -954,10 +954,10 @@ pub fn run(ctx: &mut Ctx) {
                     }
                 }
                 Ok(v) => {
-                    // a violation must show up in three independent evaluations (guards against
+                    // a violation must show up in five independent evaluations (guards against
                     // run-to-run nondeterminism of the analysis, which is not what C20 is about)
                     let mut v = v;
-                    for _ in 0..2 {
+                    for _ in 0..4 {
                         match eval(&ws, &atoms, late, &base, &codes) {
                             Ok(again) => v.retain(|x| again.iter().any(|y| y.clause == x.clause && y.role == x.role && y.code == x.code)),
                             Err(_) => v.clear(),
